@@ -45,6 +45,9 @@ def document(case):
     model = pm.SHAPE_MODELS[case["kind"]]
     nested, inlist = pm.shape_wrappers(model)
     inner = {"x": pm.SHAPE_VALUES[case["shape"]]}
+    if case["kind"].startswith("wrapped"):
+        # the field sits inside a wrapper element w; without a value the encoder writes the wrapper itself as null
+        inner = {"w": None} if case["shape"] == "null" else {"w": inner}
     if case["pos"] == "root":
         return model, inner
     if case["pos"] == "nested":
